@@ -24,6 +24,7 @@ CONSTANTS
   NamePool, IdNames, NickPool, RolePool, BossPool, TeamPool, SysPool, LeadPool, GradePool, LtPool,
   FieldSets,  \* field checkers to try on update (AllFields = nil checker)
   VetoPool,   \* subset of BOOLEAN : arm the vetoing entity constraint for the call
+  OpSysPool,  \* subset of BOOLEAN : the call is made with ctx.GetSystemContext() derived from the transaction's context
   PrePool,    \* subset of {"ok", "fail"} : pre-commit actions to add
   CountPool,  \* counts for SetLinkCount
   MaxRc,      \* bound on a reference count (rcInc is not generated beyond it)
@@ -64,23 +65,23 @@ Begin(kind, sys) ==
   /\ last' = [op |-> "begin", a |-> [kind |-> kind, sys |-> sys], res |-> "ok", app |-> {}, ret |-> NIL, tx |-> "open"]
   /\ UNCHANGED db
 
-TxCreate(via, id, p, x, lt, veto) ==
+TxCreate(via, id, p, x, lt, veto, osys) ==
   /\ "create" \in Ops /\ InTx
   \* DESIGN 3.2: Create through the child store is issued for fresh ids (or ids that already have child data) only
   /\ via = "staff" => (~Present(db, id) \/ HasExt(db, id))
-  /\ Call(CreateOp(db, txn.sys, via, id, p, IF via = "staff" THEN x ELSE NoEnt, lt, veto),
-          [op |-> "create", a |-> [via |-> via, id |-> id, p |-> p, x |-> IF via = "staff" THEN x ELSE NoEnt, lt |-> lt, veto |-> veto]])
+  /\ Call(CreateOp(db, txn.sys \/ osys, via, id, p, IF via = "staff" THEN x ELSE NoEnt, lt, veto),
+          [op |-> "create", a |-> [via |-> via, id |-> id, p |-> p, x |-> IF via = "staff" THEN x ELSE NoEnt, lt |-> lt, veto |-> veto, osys |-> osys]])
   /\ UNCHANGED ntx
 
-TxUpdate(via, id, p, x, lt, fields, veto) ==
+TxUpdate(via, id, p, x, lt, fields, veto, osys) ==
   /\ "update" \in Ops /\ InTx
-  /\ Call(UpdateOp(db, txn.sys, via, id, p, x, lt, fields, veto),
-          [op |-> "update", a |-> [via |-> via, id |-> id, p |-> p, x |-> x, lt |-> lt, fields |-> fields, veto |-> veto]])
+  /\ Call(UpdateOp(db, txn.sys \/ osys, via, id, p, x, lt, fields, veto),
+          [op |-> "update", a |-> [via |-> via, id |-> id, p |-> p, x |-> x, lt |-> lt, fields |-> fields, veto |-> veto, osys |-> osys]])
   /\ UNCHANGED ntx
 
-TxDelete(via, id, veto) ==
+TxDelete(via, id, veto, osys) ==
   /\ "delete" \in Ops /\ InTx
-  /\ Call(DeleteOp(db, txn.sys, id, veto), [op |-> "delete", a |-> [via |-> via, id |-> id, veto |-> veto]])
+  /\ Call(DeleteOp(db, txn.sys \/ osys, id, veto), [op |-> "delete", a |-> [via |-> via, id |-> id, veto |-> veto, osys |-> osys]])
   /\ UNCHANGED ntx
 
 TxCreateTeam(t) ==
@@ -88,9 +89,9 @@ TxCreateTeam(t) ==
   /\ Call(CreateTeamOp(db, t), [op |-> "createTeam", a |-> [id |-> t]])
   /\ UNCHANGED ntx
 
-TxDeleteTeam(t) ==
+TxDeleteTeam(t, osys) ==
   /\ "deleteTeam" \in Ops /\ InTx
-  /\ Call(DeleteTeamOp(db, txn.sys, t, IdOrder), [op |-> "deleteTeam", a |-> [id |-> t]])
+  /\ Call(DeleteTeamOp(db, txn.sys \/ osys, t, IdOrder), [op |-> "deleteTeam", a |-> [id |-> t, osys |-> osys]])
   /\ UNCHANGED ntx
 
 TxLinks(name, p, ts) ==     \* people side: addLinks / removeLinks / setLinks
@@ -155,12 +156,12 @@ Commit ==
 
 Next ==
   \/ \E k \in TxKinds, s \in SysCtxs : Begin(k, s)
-  \/ \E via \in Vias, id \in Ids, lt \in LtPool, veto \in VetoPool : \E p \in Persons(id) :
-        \E x \in (IF via = "staff" THEN Exts ELSE {DummyExt}) : TxCreate(via, id, p, x, lt, veto)
-  \/ \E via \in Vias, id \in Ids, lt \in LtPool, f \in FieldSets, veto \in VetoPool : \E p \in Persons(id) :
-        \E x \in (IF via = "staff" THEN Exts ELSE {DummyExt}) : TxUpdate(via, id, p, x, lt, f, veto)
-  \/ \E via \in Vias, id \in Ids, veto \in VetoPool : TxDelete(via, id, veto)
-  \/ \E t \in Teams : TxCreateTeam(t) \/ TxDeleteTeam(t)
+  \/ \E via \in Vias, id \in Ids, lt \in LtPool, veto \in VetoPool, os \in OpSysPool : \E p \in Persons(id) :
+        \E x \in (IF via = "staff" THEN Exts ELSE {DummyExt}) : TxCreate(via, id, p, x, lt, veto, os)
+  \/ \E via \in Vias, id \in Ids, lt \in LtPool, f \in FieldSets, veto \in VetoPool, os \in OpSysPool : \E p \in Persons(id) :
+        \E x \in (IF via = "staff" THEN Exts ELSE {DummyExt}) : TxUpdate(via, id, p, x, lt, f, veto, os)
+  \/ \E via \in Vias, id \in Ids, veto \in VetoPool, os \in OpSysPool : TxDelete(via, id, veto, os)
+  \/ \E t \in Teams : TxCreateTeam(t) \/ \E os \in OpSysPool : TxDeleteTeam(t, os)
   \/ \E n \in {"addLinks", "removeLinks", "setLinks"}, p \in Ids, ts \in SUBSET Teams : TxLinks(n, p, ts)
   \/ \E n \in {"addLinks", "removeLinks", "setLinks"}, t \in Teams, ps \in SUBSET Ids : TxLinksT(n, t, ps)
   \/ \E n \in {"addLink", "removeLink"}, p \in Ids, t \in Teams : TxLink1(n, p, t)
@@ -199,6 +200,8 @@ DeliveredOnlyOnCommit == [][(last'.op = "commit" /\ last'.res = "ok") => (last'.
 SysFlagFixed ==
   [][\A i \in Ids : (Present(db, i) /\ Present(db', i) /\ txn'.open) => db'.ent[i].sys = db.ent[i].sys]_vars
 OrdinaryCtxCannotTouchSystem ==
-  [][(txn.open /\ ~txn.sys) => \A i \in Ids : (Present(db, i) /\ db.ent[i].sys) => (db'.ent[i] = db.ent[i] /\ db'.ext[i] = db.ext[i])]_vars
+  \* (a step that rolls the transaction back restores the pre-transaction state, whoever made the earlier calls)
+  [][(txn.open /\ ~txn.sys /\ last'.res = "ok" /\ ~(last'.op \in {"create", "update", "delete", "deleteTeam"} /\ last'.a.osys))
+       => \A i \in Ids : (Present(db, i) /\ db.ent[i].sys) => (db'.ent[i] = db.ent[i] /\ db'.ext[i] = db.ext[i])]_vars
 
 =============================================================================
